@@ -16,13 +16,15 @@ use qbice::{
     engine::{EngineOptions, YieldFrequency},
     serialize::Plugin,
     stable_hash::{SeededStableHasherBuilder, Sip128Hasher},
-    storage::storage_engine::in_memory::{
-        InMemoryStorageEngine, InMemoryStorageEngineFactory,
+    storage::storage_engine::{
+        db_backed::{Configuration, DbBacked, DbBackedFactory},
+        in_memory::{InMemoryStorageEngine, InMemoryStorageEngineFactory},
     },
 };
 use simkit::{
-    Rng,
+    Rng, pipeline,
     sched::{self, Controller, Decision, Strategy},
+    simkv::{Disk, SimKv, SimKvFactory},
 };
 
 use crate::{
@@ -55,6 +57,12 @@ pub struct Stats {
     pub updated_inputs: u64,
     pub hook_events: u64,
     pub yields: u64,
+    pub restarts: u64,
+    pub drains: u64,
+    pub phys_commits: u64,
+    pub logical_batches: u64,
+    pub crash_prefixes: u64,
+    pub multi_batch_commits: u64,
     pub probes: BTreeMap<String, u64>,
     pub faults: BTreeMap<String, u64>,
 }
@@ -118,7 +126,49 @@ pub trait SimCfg: Config {
 
 /// Things that outlive one engine instance within a run (the simulated disk)
 #[derive(Default)]
-pub struct RunEnv {}
+pub struct RunEnv {
+    pub disk: Option<Disk>,
+}
+
+#[derive(
+    Debug, Clone, Copy, PartialEq, Eq, PartialOrd, Ord, Hash, Default, Identifiable,
+)]
+pub struct DbCfg;
+
+impl Config for DbCfg {
+    type StorageEngine = DbBacked<SimKv>;
+    type BuildStableHasher = SeededStableHasherBuilder<Sip128Hasher>;
+    type BuildHasher = BuildHasherDefault<FxHasher>;
+}
+
+impl SimCfg for DbCfg {
+    async fn open(cfg: &RunCfg, h: &Arc<Harness>, env: &RunEnv) -> Engine<Self> {
+        let (cache_cap, ser_workers) = match cfg.storage {
+            Storage::Db { cache_cap, ser_workers, .. } => (cache_cap, ser_workers),
+            Storage::Mem => (8, 1),
+        };
+        let mut e = Engine::<DbCfg>::new_with_options()
+            .serialization_plugin(Plugin::default())
+            .storage_engine_factory(
+                DbBackedFactory::builder()
+                    .configuration(
+                        Configuration::builder()
+                            .cache_capacity(cache_cap)
+                            .serialization_workers(ser_workers)
+                            .build(),
+                    )
+                    .db_factory(SimKvFactory(env.disk.clone().expect("disk")))
+                    .build(),
+            )
+            .stable_hasher(SeededStableHasherBuilder::<Sip128Hasher>::new(0))
+            .options(engine_options(cfg))
+            .build()
+            .await
+            .unwrap();
+        register_all(&mut e, h);
+        e
+    }
+}
 
 fn engine_options(cfg: &RunCfg) -> EngineOptions {
     EngineOptions::builder()
@@ -153,6 +203,8 @@ struct Runner<'a, C: SimCfg> {
     model: Model<'a>,
     cursor: usize,
     stats: Stats,
+    /// committed input states S_0 (nothing set), S_1, ...
+    input_history: Vec<std::collections::HashMap<u32, Val>>,
 }
 
 fn fail(class: &str, msg: String) -> Failure {
@@ -275,6 +327,7 @@ impl<'a, C: SimCfg> Runner<'a, C> {
         } else {
             drop(s);
         }
+        self.input_history.push(self.model.inputs.clone());
         self.drain()?;
         if self.sc.cfg.strict {
             self.warm_up().await?;
@@ -328,13 +381,150 @@ impl<'a, C: SimCfg> Runner<'a, C> {
                 self.model.request_end();
                 Ok(())
             }
+            Op::Restart => self.restart().await,
+            Op::Drain => {
+                if self.env.disk.is_some() {
+                    pipeline::drain();
+                    self.stats.drains += 1;
+                }
+                Ok(())
+            }
             other => Err(fail("harness_error", format!("op not supported here: {other:?}"))),
         }
     }
 
-    async fn run(&mut self) -> Result<(), Failure> {
+    /// clean shutdown of the current engine instance (inside the runtime)
+    async fn shutdown(&mut self) {
+        self.tracked = None;
+        if let Some(e) = self.engine.take() {
+            // detached guard futures / dropped sessions may still hold the
+            // engine; let them finish
+            let mut spins = 0u32;
+            while Arc::strong_count(&e) > 1 && spins < 100_000 {
+                tokio::task::yield_now().await;
+                spins += 1;
+            }
+            pipeline::open_forever();
+            drop(e);
+        }
+    }
+
+    async fn open(&mut self) {
+        if self.env.disk.is_some() {
+            pipeline::reset(true);
+        }
         let e = C::open(&self.sc.cfg, &self.h, &self.env).await;
         self.engine = Some(Arc::new(e));
+    }
+
+    async fn restart(&mut self) -> Result<(), Failure> {
+        self.shutdown().await;
+        self.stats.restarts += 1;
+        self.open().await;
+        Ok(())
+    }
+
+    /// C08: every prefix of the physical commit log is a crash state.
+    async fn check_crash_prefixes(&mut self) -> Result<(), Failure> {
+        let Some(disk) = self.env.disk.clone() else { return Ok(()) };
+        let m = disk.log_len();
+        {
+            let d = disk.0.lock();
+            self.stats.phys_commits += m as u64;
+            for pc in &d.log {
+                self.stats.logical_batches += pc.logical.len() as u64;
+                if pc.logical.len() > 1 {
+                    self.stats.multi_batch_commits += 1;
+                }
+            }
+        }
+        let mut k_prev = 0usize;
+        for j in 0..=m {
+            let dj = disk.prefix(j, self.sc.cfg.sched_seed ^ j as u64);
+            let k = self.check_recovered(dj, j, m, k_prev).await?;
+            k_prev = k;
+            self.stats.crash_prefixes += 1;
+        }
+        Ok(())
+    }
+
+    async fn check_recovered(
+        &mut self,
+        disk: Disk,
+        j: usize,
+        m: usize,
+        k_prev: usize,
+    ) -> Result<usize, Failure> {
+        let prog = &self.sc.program;
+        let h2 = Harness::new(prog.clone());
+        *h2.world.lock() = self.h.world.lock().clone();
+        let env = RunEnv { disk: Some(disk) };
+        pipeline::reset(false);
+        let e = Arc::new(C::open(&self.sc.cfg, &h2, &env).await);
+        let te = e.clone().tracked().await;
+        // which committed session do the recovered inputs belong to?
+        let mut seen: std::collections::HashMap<u32, Val> = std::collections::HashMap::new();
+        for n in prog.of_kind(crate::program::Kind::In) {
+            let v = query_node(&te, prog, n).await;
+            if v != vec![crate::queries::UNSET_INPUT] {
+                seen.insert(n, v);
+            }
+        }
+        if j == m && Some(&seen) != self.input_history.last() {
+            return Err(fail(
+                "lost_after_clean_shutdown",
+                format!(
+                    "after a clean shutdown the store shows the inputs {seen:?}, the last committed session left {:?}",
+                    self.input_history.last()
+                ),
+            ));
+        }
+        let k = (k_prev..self.input_history.len()).find(|k| self.input_history[*k] == seen);
+        let Some(k) = k else {
+            return Err(fail(
+                "crash_inputs_not_a_session",
+                format!(
+                    "crash after physical commit {j}/{m}: recovered inputs {seen:?} are not the inputs of any committed session >= {k_prev} (history {:?})",
+                    self.input_history
+                ),
+            ));
+        };
+        if k > 0 {
+            let mut model = Model::new(prog);
+            model.check_c03 = false;
+            model.inputs = seen.clone();
+            model.world = self.model.world.clone();
+            model.epoch = 1;
+            // the engine's own firewall-repair pass for everything stored
+            for n in 0..prog.len() {
+                repair_tfc_node(&te, prog, n).await;
+            }
+            for n in (0..prog.len()).rev() {
+                let v = query_node(&te, prog, n).await;
+                let want = model.fs(n);
+                if v != want {
+                    return Err(fail(
+                        "crash_wrong_value",
+                        format!(
+                            "crash after physical commit {j}/{m} (inputs of session {k}): node {n} ({:?}) = {v:?}, from-scratch = {want:?}",
+                            prog.kind(n)
+                        ),
+                    ));
+                }
+            }
+        }
+        drop(te);
+        let mut spins = 0u32;
+        while Arc::strong_count(&e) > 1 && spins < 100_000 {
+            tokio::task::yield_now().await;
+            spins += 1;
+        }
+        drop(e);
+        Ok(k)
+    }
+
+    async fn run(&mut self) -> Result<(), Failure> {
+        self.open().await;
         for op in &self.sc.ops {
             self.step(op).await?;
         }
@@ -344,6 +534,10 @@ impl<'a, C: SimCfg> Runner<'a, C> {
             for n in (0..self.sc.program.len()).rev() {
                 self.user_query(n, "final sweep").await?;
             }
+        }
+        if self.sc.cfg.crash_check {
+            self.shutdown().await;
+            self.check_crash_prefixes().await?;
         }
         Ok(())
     }
@@ -366,7 +560,13 @@ fn run_generic<C: SimCfg>(sc: &Scenario, decisions: Option<&[Decision]>) -> Outc
     let mut runner = Runner::<C> {
         sc,
         h: h.clone(),
-        env: RunEnv::default(),
+        env: RunEnv {
+            disk: match sc.cfg.storage {
+                Storage::Db { group_max, .. } => Some(Disk::new(sc.cfg.sched_seed, group_max)),
+                Storage::Mem => None,
+            },
+        },
+        input_history: vec![std::collections::HashMap::new()],
         engine: None,
         tracked: None,
         model,
@@ -391,8 +591,7 @@ fn run_generic<C: SimCfg>(sc: &Scenario, decisions: Option<&[Decision]>) -> Outc
             Ok(Ok(r)) => r,
         };
         // clean shutdown inside the runtime
-        runner.tracked = None;
-        runner.engine = None;
+        runner.shutdown().await;
         r
     });
     drop(rt);
@@ -439,6 +638,6 @@ fn run_generic<C: SimCfg>(sc: &Scenario, decisions: Option<&[Decision]>) -> Outc
 pub fn run_scenario(sc: &Scenario, decisions: Option<&[Decision]>) -> Outcome {
     match sc.cfg.storage {
         Storage::Mem => run_generic::<MemCfg>(sc, decisions),
-        Storage::Db { .. } => run_generic::<MemCfg>(sc, decisions),
+        Storage::Db { .. } => run_generic::<DbCfg>(sc, decisions),
     }
 }
